@@ -1,6 +1,7 @@
 """C02 - mass, volume and number densities are accounted consistently at every level.
 
-Theorems: lean/ArmiVerif/Props/C02.lean (one generic composite level, instantiated for block / assembly / core).
+Theorems: lean/ArmiVerif/Props/C02.lean (one generic composite level, instantiated for block / assembly / core; trees
+of arbitrary depth by structural induction; the adjustMassFrac dict).
 Tie: the reference test reactor (third core: centre assembly symmetry factor 3, edge assemblies 2) and generated
 blocks/assemblies built from the real shape classes and library materials are mirrored into Model/Compo.lean
 (volumes, symmetry factors, number densities, atomic weights read from the real objects, sent as exact
@@ -39,6 +40,11 @@ ASSUMPTIONS = [
     "nuclide at all is an invalid request (calculateMassDensity raises KeyError) and outside the model; element-level "
     "setMass / setMassFrac are not supported by the code unless the elemental nuclide itself is present (ValueError, "
     "modelled as reject)",
+    "adjustMassFrac: nucDir.getNuclideNames(nuclide / element) is a parameter (the name lists are read from the real "
+    "directory); requests with nothing left to absorb the change (every nuclide adjusted or held) are only made with the "
+    "unchanged value; the adjusted and the held names are disjoint (hypotheses of adjustDict_total, produced by the generator)",
+    "arbitrary-depth trees: generic composites have symmetry factor 1 and volume = sum of the children; blocks divide by "
+    "their symmetry factor (Tree.SymOK / Tree.WF, evaluated on the real nested objects)",
 ]
 RTOL = 1e-9
 
@@ -1359,6 +1365,423 @@ def run_generated(ctx):
         raise common.Infra("no generated assembly could be built")
 
 
+# --------------------------------------------------------------------------- composites of arbitrary depth
+def tree_encode(mir, o):
+    """generic composites / blocks -> `[sym,kid,..]`; components -> `L;vol;psym;[nuc..];[nd..]` (Drivers/Compo `tree`)"""
+    from armi.reactor.components import Component
+
+    if isinstance(o, Component):
+        nd = o.p.numberDensities
+        psym = o.parent.getSymmetryFactor() if o.parent else 1.0
+        return (f"L;{rat(o.getVolume())};{rat(psym)};{intlist([mir.nid(n) for n in nd])};"
+                f"{ratlist(list(nd.values()))}")
+    return "[" + ",".join([rat(o.getSymmetryFactor())] + [tree_encode(mir, c) for c in o]) + "]"
+
+
+def run_trees(ctx):
+    """generic `composites.Composite` objects nested to a random depth (1-4 levels above the blocks) over generated
+    blocks, some of them cut by symmetry (factor 3): additivity of atoms and mass and mass = density x volume at EVERY
+    node, before and after composition edits at random nodes; the whole tree compared with Model/Compo `Tree`."""
+    from armi.reactor import composites, grids
+    from armi.reactor.components import Component
+
+    # own generator (seeded from property + VERIF_SEED + stream name): the streams that existed before keep their draws
+    rng = random.Random(f"{ctx.prop}-{ctx.seed}-trees")
+    third = grids.HexGrid.fromPitch(16.0, numRings=3, symmetry="third periodic")
+    for idx in range(ctx.pick(4, 60)):
+        nb = rng.randint(2, 5)
+        try:
+            with common.quiet():
+                blocks = [gen_block(rng, "tb%02d_%d" % (idx, j), common.dyadic(rng, 5, 40, 1)) for j in range(nb)]
+        except (ValueError, ArithmeticError) as e:
+            ctx.count(f"generated block refused by armi ({type(e).__name__})")
+            continue
+        counter = [0]
+
+        def group(items, depth):
+            """random nesting: composites holding composites ... holding blocks"""
+            counter[0] += 1
+            node = composites.Composite("n%d_%d" % (idx, counter[0]))
+            if depth <= 1 or len(items) == 1:
+                if rng.random() < 0.5:
+                    node.spatialLocator = third[0, 0, 0]      # its blocks are the centre of a third-core grid: factor 3
+                for b in items:
+                    node.add(b)
+                return node
+            k = rng.randint(1, len(items))
+            parts = [items[:k], items[k:]] if k < len(items) else [items]
+            for part in parts:
+                node.add(group(part, depth - 1))
+            return node
+
+        depth = rng.randint(1, 4)
+        with common.quiet():
+            root = group(blocks, depth)
+            for b in blocks:
+                b.clearCache()
+                for c in b:
+                    c.clearCache()
+                b.getVolumeFractions()
+        nodes = []
+
+        def walk(o, lvl):
+            if isinstance(o, Component):
+                return
+            nodes.append((o, lvl))
+            for c in o:
+                walk(c, lvl + 1)
+
+        walk(root, 0)
+        real_depth = max(l for _, l in nodes) + 1
+        ctx.count(f"tree depth above the components {real_depth}")
+        ctx.count("tree blocks cut by symmetry (factor 3)", sum(1 for b in blocks if b.getSymmetryFactor() == 3.0))
+        case = {"stream": "trees", "tree": idx, "depth": real_depth, "blocks": nb,
+                "cut": [b.name for b in blocks if b.getSymmetryFactor() != 1.0]}
+        mir = Mirror()
+        mir.emit("new")
+        for n in ("U235", "U238", "ZR", "NA23", "FE", "PU239"):
+            mir.nid(n)
+        mir.emit(mir.phys_line())
+        mir.phys_sent = len(mir.names)
+
+        def check_all(tag):
+            for o, lvl in nodes:
+                nucs = pick_nucs(rng, o, 3)
+                ocase = dict(case, node=o.name, level=lvl, after=tag)
+                leaves = [(c, b) for b in blocks for c in b if b is o or b in o.getChildren(deep=True)]
+                # hypotheses of tree_atoms_additive / tree_mass_eq_density_volume on the real objects
+                if type(o) is composites.Composite and any(type(k) is composites.Composite for k in o) \
+                        and float(o.getSymmetryFactor()) != 1.0:
+                    ctx.disagree("Tree.SymOK: a composite that holds composites has symmetry factor 1", ocase, 1.0,
+                                 float(o.getSymmetryFactor()))
+                vol = float(o.getVolume())
+                if not vol > 0:
+                    ctx.count("tree node without volume (outside Tree.WF)")
+                    continue
+                vals = [vol]
+                for n in nucs:
+                    nd = float(o.getNumberDensity(n))
+                    want = sum(float(c.getNumberDensity(n)) * float(c.getVolume()) / float(b.getSymmetryFactor())
+                               for c, b in leaves)
+                    if not fclose(nd * vol, want, scale=abs(want) * 1e-9):
+                        ctx.fail("atoms-additive-tree", "N·V of a composite at any depth == sum over its components of "
+                                 "N_c·V_c / symmetry factor of the component's block", dict(ocase, nuclide=n),
+                                 observed=nd * vol, expected=want)
+                    vals.append(nd)
+                for n in nucs:
+                    m = float(o.getMass(n))
+                    want = sum(float(c.getMass(n)) for c, _ in leaves)
+                    if not fclose(m, want, scale=abs(want) * 1e-9):
+                        ctx.fail("mass-additive-tree", "getMass of a composite at any depth == sum of its components' getMass",
+                                 dict(ocase, nuclide=n), observed=m, expected=want)
+                    rho_v = float(o.getNumberDensity(n)) * vol * mir.aw(n) / mir.K
+                    if not fclose(m, rho_v, scale=abs(rho_v) * 1e-9):
+                        ctx.fail("mass-density-volume-tree", "mass == number density x volume x A / K at any depth",
+                                 dict(ocase, nuclide=n), observed=m, expected=rho_v)
+                    vals.append(m)
+                for n in nucs:
+                    vals.append(sum(float(c.getNumberDensity(n)) * float(c.getVolume()) / float(b.getSymmetryFactor())
+                                    for c, b in leaves))
+
+                def check(line, vals=vals, ocase=ocase):
+                    try:
+                        qs = [common.unrat(x) for x in common.parse_list(line)]
+                    except Exception:
+                        ctx.disagree("Model/Compo Tree vs nested composites", ocase, line, vals[:4])
+                        return
+                    if len(qs) != len(vals) or any(not rel_close(v, q, float(abs(q)) * 1e-9) for v, q in zip(vals, qs)):
+                        ctx.disagree("Model/Compo Tree vs nested composites", ocase, [float(q) for q in qs][:7], vals[:7])
+
+                mir.emit(f"tree {tree_encode(mir, o)} {intlist([mir.nid(n) for n in nucs])}", check)
+                ctx.case(("tree", idx, o.name, tag), nontrivial=True)
+
+        with common.quiet():
+            check_all("built")
+            # composition edits at random nodes (the generic setters of composites.py work at any depth)
+            for step in range(ctx.pick(2, 6)):
+                o, lvl = rng.choice(nodes)
+                nucs = [n for n in pick_nucs(rng, o, 2) if float(o.getNumberDensity(n)) > 0]
+                if not nucs:
+                    continue
+                n = nucs[0]
+                kind = rng.choice(["setNumberDensity", "addMass", "leaf changeNDensByFactor"])
+                EPOCH[0] += 1
+                if kind == "setNumberDensity":
+                    v = float(o.getNumberDensity(n)) * rng.choice([0.5, 2.0, 1.25])
+                    o.setNumberDensity(n, v)
+                    if not fclose(float(o.getNumberDensity(n)), v):
+                        ctx.fail("setnd-readback-tree", "setNumberDensity at any depth reads back", dict(case, node=o.name, level=lvl, nuclide=n),
+                                 observed=float(o.getNumberDensity(n)), expected=v)
+                elif kind == "addMass":
+                    m0 = float(o.getMass(n))
+                    o.addMass(n, 0.25 * m0)
+                    if not fclose(float(o.getMass(n)), 1.25 * m0, scale=m0 * 1e-9):
+                        ctx.fail("addmass-readback-tree", "addMass at any depth changes the mass by the requested amount",
+                                 dict(case, node=o.name, level=lvl, nuclide=n), observed=float(o.getMass(n)), expected=1.25 * m0)
+                else:
+                    b = rng.choice(blocks)
+                    rng.choice(list(b)).changeNDensByFactor(rng.choice([0.5, 1.5]))
+                ctx.count(f"tree edit {kind} at level {lvl}")
+                check_all(f"{kind} #{step}")
+        run_session(ctx, mir, "trees")
+
+
+# --------------------------------------------------------------------------- adjustMassFrac
+def adjust_names(nuc=None, elem=None):
+    from armi.nucDirectory import nucDir
+
+    return list(nucDir.getNuclideNames(nucName=nuc, elementSymbol=elem))
+
+
+def run_adjust(ctx):
+    """`adjustMassFrac` on components, blocks and assemblies of generated assemblies: the dict it hands to
+    `setMassFracs` (captured) and the resulting state against Model/Compo `adjustDict` / `adjustMassFrac`; oracle:
+    the adjusted nuclides' total fraction reads back, they keep their proportions, the held nuclides keep their
+    fractions, the others keep their proportions, total density unchanged, fractions sum to one."""
+    from armi.nucDirectory import elements
+    from armi.reactor import grids
+
+    rng = random.Random(f"{ctx.prop}-{ctx.seed}-adjust")
+    third = grids.HexGrid.fromPitch(16.0, numRings=3, symmetry="third periodic")
+    for idx in range(ctx.pick(3, 40)):
+        try:
+            with common.quiet():
+                a = gen_assembly(rng, 900 + idx, third if rng.random() < 0.4 else None)
+        except (ValueError, ArithmeticError):
+            continue
+        blocks = list(a)
+        fuel_like = [c for b in blocks for c in b if c.name in ("fuel", "clad", "duct")]
+        targets = [rng.choice(fuel_like), rng.choice(blocks), a, rng.choice(fuel_like), rng.choice(blocks)]
+        mir = Mirror()
+        paths = mir.load([a], extra_nucs=("PU239", "AM241", "HE4"))
+        label = "adjustMassFrac"
+        for step, obj in enumerate(targets):
+            lvl = level_of(obj)
+            with common.quiet():
+                mf0 = dict(obj.getMassFracs())
+                rho0 = dens(obj)
+            present = [n for n, v in mf0.items() if v > 1e-9]
+            if not present or not rho0:
+                continue
+            # element symbols whose isotopes (or the elemental nuclide) are present
+            def sym_of_nuc(n):
+                try:
+                    return mir.nb.byName[n].element.symbol
+                except Exception:
+                    return None
+            syms = sorted({s_ for s_ in (sym_of_nuc(n) for n in present) if s_})
+            how = rng.choice(["nuclide", "element", "element", "nuclide-absent-mass"])
+            kw = {}
+            if how == "element":
+                e1 = rng.choice(syms)
+                kw["elementToAdjust"] = e1
+                adj = adjust_names(elem=e1)
+            elif how == "nuclide":
+                n1 = rng.choice(present)
+                kw["nuclideToAdjust"] = n1
+                adj = adjust_names(nuc=n1)
+            else:
+                zero = [n for n, v in mf0.items() if v == 0.0]
+                n1 = rng.choice(zero) if zero else rng.choice(present)
+                kw["nuclideToAdjust"] = n1
+                adj = adjust_names(nuc=n1)
+            adj_here = [n for n in adj if n in mf0]
+            hold = []
+            if rng.random() < 0.6:
+                rest = [n for n in present if n not in adj_here]
+                rest_syms = sorted({sym_of_nuc(n) for n in rest} - {sym_of_nuc(n) for n in adj_here} - {None})
+                if rest_syms and rng.random() < 0.5:
+                    e2 = rng.choice(rest_syms)
+                    kw["elementToHoldConstant"] = e2
+                    hold = adjust_names(elem=e2)
+                elif rest:
+                    n2 = rng.choice(rest)
+                    kw["nuclideToHoldConstant"] = n2
+                    hold = adjust_names(nuc=n2)
+            hold_here = [n for n in hold if n in mf0]
+            A0 = sum(mf0[n] for n in adj_here)
+            C0 = sum(mf0[n] for n in hold_here)
+            room = max(0.0, 1.0 - C0)
+            if 1.0 - A0 - C0 > 1e-6:
+                val = rng.choice([min(A0 * 0.5, room), min(A0 * 1.25 + 0.015625, room * 0.75), 0.125 * room, 0.0, A0])
+            else:
+                # nothing is left to absorb a change (every nuclide is adjusted or held): only the unchanged value is a
+                # feasible request
+                val = A0
+                ctx.count("adjustMassFrac: no remaining nuclides, value left unchanged")
+            r = rng.random()
+            if r < 0.08:
+                val = rng.choice([1.5, -0.125])              # refused: ValueError
+                how += "/invalid value"
+            elif r < 0.16:
+                # a nuclide that is not in the object at all: nothing can be adjusted (RuntimeError unless val == 0)
+                kw.pop("elementToAdjust", None)
+                kw["nuclideToAdjust"] = "XE135" if "XE135" not in mf0 else "KR85"
+                adj = adjust_names(nuc=kw["nuclideToAdjust"])
+                adj_here, A0 = [], 0.0
+                val = rng.choice([0.0625, 0.0])
+                how += "/absent nuclide"
+            kw["val"] = float(val)
+            case = {"stream": label, "assembly": idx, "object": str(obj.name), "level": lvl, "step": step, "args": dict(kw)}
+
+            def fail(key, clause, observed, expected, case=case):
+                ctx.fail(key, clause, case, observed=observed, expected=expected)
+
+            # the dict handed to setMassFracs, captured on this call
+            captured = {}
+            orig = obj.setMassFracs
+
+            def spy(d, captured=captured, orig=orig):
+                captured["d"] = dict(d)
+                return orig(d)
+
+            obj.setMassFracs = spy
+            EPOCH[0] += 1          # (densities are memoised per edit epoch)
+            try:
+                with common.quiet():
+                    obj.adjustMassFrac(**kw)
+                res = "ok"
+            except (ValueError, RuntimeError, ZeroDivisionError):
+                res = "reject"
+            finally:
+                del obj.setMassFracs
+            ctx.count(f"adjustMassFrac {how} @{lvl}: {res}" + (" hold" if hold else ""))
+            ctx.case(("adjust", lvl, how, bool(hold), res, "zero" if val == 0.0 else ("same" if val == A0 else "value")),
+                     nontrivial=True)
+            ids = lambda names: intlist([mir.nid(n) for n in names])  # noqa: E731
+            pa = pth(paths[id(obj)])
+            if "d" in captured:
+                want = {mir.nid(k): float(v) for k, v in captured["d"].items()}
+
+                def check_dict(line, want=want, case=case):
+                    try:
+                        got = {int(k): common.unrat(v) for k, v in common.parse_list(line)}
+                    except Exception:
+                        ctx.disagree("adjustDict vs the dict adjustMassFrac hands to setMassFracs", case, line[:200], "dict")
+                        return
+                    if set(got) != set(want) or any(not rel_close(want[k], got[k], 1e-12) for k in want):
+                        ctx.disagree("adjustDict vs the dict adjustMassFrac hands to setMassFracs", case,
+                                     {k: float(v) for k, v in list(got.items())[:6]}, dict(list(want.items())[:6]))
+
+                mir.emit(f"adjustdict {pa} {ids(adj)} {ids(hold)} {rat(val)}", check_dict)
+            mir.emit(f"adjustmf {pa} {ids(adj)} {ids(hold)} {rat(val)}",
+                     expect_result(ctx, f"{label}: accepted/refused", case, res))
+            if res == "ok":
+                with common.quiet():
+                    mf1 = dict(obj.getMassFracs())
+                    rho1 = dens(obj)
+                A1 = sum(mf1.get(n, 0.0) for n in adj_here)
+                if not fclose(A1, val, tol=1e-8):
+                    fail(f"adjustmf-readback-{lvl}", "adjustMassFrac: the adjusted nuclides' total mass fraction reads back",
+                         A1, val)
+                if A0 > 0 and val > 0:
+                    for n in adj_here:
+                        if not fclose(mf1.get(n, 0.0) * A0, mf0[n] * val, scale=1e-12, tol=1e-8):
+                            fail(f"adjustmf-adjusted-proportions-{lvl}", "adjusted nuclides keep their proportions",
+                                 mf1.get(n, 0.0), mf0[n] * val / A0)
+                            break
+                for n in hold_here:
+                    if not fclose(mf1.get(n, 0.0), mf0[n], scale=1e-12, tol=1e-8):
+                        fail(f"adjustmf-held-constant-{lvl}", "the nuclides to hold constant keep their mass fractions",
+                             mf1.get(n, 0.0), mf0[n])
+                        break
+                others = [n for n in mf0 if n not in adj_here and n not in hold_here and mf0[n] > 0]
+                if len(others) > 1:
+                    ref_n = max(others, key=lambda n: mf0[n])
+                    for n in others:
+                        if not fclose(mf1.get(n, 0.0) * mf0[ref_n], mf0[n] * mf1.get(ref_n, 0.0), scale=1e-14, tol=1e-8):
+                            fail(f"adjustmf-others-proportional-{lvl}", "the remaining nuclides keep their proportions",
+                                 mf1.get(n, 0.0) / max(mf1.get(ref_n, 0.0), 1e-300), mf0[n] / mf0[ref_n])
+                            break
+                if not fclose(rho1, rho0, tol=1e-8):
+                    fail(f"adjustmf-density-{lvl}", "adjustMassFrac keeps the total density", rho1, rho0)
+                if not fclose(sum(mf1.values()), 1.0, tol=1e-9):
+                    fail(f"adjustmf-sum-one-{lvl}", "mass fractions sum to one", sum(mf1.values()), 1.0)
+                nucs = [n for n in (adj_here + hold_here + others)[:6] if n not in ambiguous(obj)]
+                add_snap(ctx, mir, f"{label}: Model/Compo vs {lvl} after adjustMassFrac", case, obj, paths[id(obj)], nucs)
+                if obj.parent is not None and id(obj.parent) in paths:
+                    add_snap(ctx, mir, f"{label}: Model/Compo vs parent after adjustMassFrac", case, obj.parent,
+                             paths[id(obj.parent)], [n for n in nucs if n not in ambiguous(obj.parent)])
+                if lvl != "component":
+                    kid = rng.choice(list(obj))
+                    add_snap(ctx, mir, f"{label}: Model/Compo vs a child after adjustMassFrac", dict(case, child=str(kid.name)),
+                             kid, paths[id(kid)], [n for n in nucs if n not in ambiguous(kid)])
+                    if lvl == "assembly":
+                        kid2 = rng.choice(list(kid))
+                        add_snap(ctx, mir, f"{label}: Model/Compo vs a grandchild after adjustMassFrac",
+                                 dict(case, child=str(kid2.name)), kid2, paths[id(kid2)],
+                                 [n for n in nucs if n not in ambiguous(kid2)])
+            else:
+                run_session(ctx, mir, label)
+                paths = mir.load([a], extra_nucs=("PU239", "AM241", "HE4"))
+        run_session(ctx, mir, label)
+
+
+# --------------------------------------------------------------------------- the symmetry factor itself
+def run_symmetry(ctx, r):
+    """HexBlock.getSymmetryFactor / Assembly.getSymmetryFactor on every block of the reference core (third-core
+    periodic, edge assemblies present: factors 1, 2, 3), with the upper edge assemblies hidden from the lookup (factor 2
+    -> 1), and on detached blocks - against Model/Compo hexBlockSymmetryFactor (function-level: same indices, same flags)."""
+    from armi.reactor import geometry, grids
+
+    core = r.core
+    grid = core.spatialGrid
+    req, chk = [], []
+
+    def flags(b):
+        try:
+            symmetry = b.parent.spatialLocator.grid.symmetry
+        except Exception:
+            return False, False
+        return True, (symmetry.domain == geometry.DomainType.THIRD_CORE
+                      and symmetry.boundary == geometry.BoundaryType.PERIODIC)
+
+    def visit(tag):
+        upper = bool(core.childrenByLocator.get(grid[-1, 2, 0]))
+        for a in core:
+            factors = []
+            for b in a:
+                g, t = flags(b)
+                i, j = (int(x) for x in b.spatialLocator.getCompleteIndices()[:2])
+                got = float(b.getSymmetryFactor())
+                factors.append(got)
+                req.append(f"hexsym {'T' if g else 'F'} {'T' if t else 'F'} {i} {j} {'T' if upper else 'F'}")
+                chk.append(({"stream": "symmetry factor", "state": tag, "assembly": a.name, "block": b.name, "ij": [i, j],
+                             "upperEdgePresent": upper}, got))
+                if got not in (1.0, 2.0, 3.0):
+                    ctx.fail("symmetry-factor-range", "a block's symmetry factor is 1, 2 or 3", chk[-1][0], observed=got)
+                ctx.case(("hexsym", tag, i, j), nontrivial=(i, j) == (0, 0) or got != 1.0)
+                ctx.count(f"symmetry factor {got:g} ({tag})")
+            if factors and float(a.getSymmetryFactor()) != factors[0]:
+                ctx.fail("assembly-symmetry-factor", "Assembly.getSymmetryFactor() is its first block's", {"assembly": a.name},
+                         observed=float(a.getSymmetryFactor()), expected=factors[0])
+
+    with common.quiet():
+        visit("edge assemblies present")
+        # hide the upper edge assembly the code looks for: the overhanging assemblies count as full
+        loc = grid[-1, 2, 0]
+        hidden = core.childrenByLocator.pop(loc, None)
+        try:
+            visit("upper edge assembly hidden")
+        finally:
+            if hidden is not None:
+                core.childrenByLocator[loc] = hidden
+    # detached block: no parent grid at all
+    from armi.reactor import blocks
+
+    with common.quiet():
+        lone = blocks.HexBlock("lone", height=1.0)
+        got = float(lone.getSymmetryFactor())
+    req.append("hexsym F F 0 0 F")
+    chk.append(({"stream": "symmetry factor", "state": "detached block"}, got))
+    model = lean_run("Compo", req)
+    for line, (case, got) in zip(model, chk):
+        if line in ("bad-op", "reject") or float(common.unrat(line)) != got:
+            ctx.disagree("Model/Compo hexBlockSymmetryFactor vs HexBlock.getSymmetryFactor", case, line, got)
+    ctx.evaluations += len(req)
+    ctx.count("model requests (symmetry factor)", len(req))
+
+
 def run_conversions(ctx):
     """densityTools conversions: model vs implementation and the mutual-inverse clauses."""
     from armi.nucDirectory import nuclideBases
@@ -1818,12 +2241,17 @@ def run(ctx):
                      {"stream": "reference core"}, observed=repr(e)[:400])
             guarded(ctx, "densityTools", lambda: run_conversions(ctx))
             guarded(ctx, "generated", lambda: run_generated(ctx))
+            guarded(ctx, "trees", lambda: run_trees(ctx))
+            guarded(ctx, "adjustMassFrac", lambda: run_adjust(ctx))
             return
         guarded(ctx, "densityTools", lambda: run_conversions(ctx))
         guarded(ctx, "reference core", lambda: run_core(ctx, r))
         guarded(ctx, "assemblies", lambda: run_assemblies(ctx, r))
         guarded(ctx, "void-and-refill", lambda: run_zero_refill(ctx, r))
         guarded(ctx, "generated", lambda: run_generated(ctx))
+        guarded(ctx, "trees", lambda: run_trees(ctx))
+        guarded(ctx, "adjustMassFrac", lambda: run_adjust(ctx))
+        guarded(ctx, "symmetry factor", lambda: run_symmetry(ctx, r))
         guarded(ctx, "derived shape", lambda: run_derived(ctx, r))
         guarded(ctx, "query order", lambda: run_query_order(ctx, r))
         guarded(ctx, "structure", lambda: run_structure(ctx, r))
@@ -1837,6 +2265,10 @@ def run(ctx):
                 "of a neighbour; query-order scripts (volumes evaluated, a sibling of the derived coolant resized by setTemperature "
                 "or setDimension, first query afterwards = block area / coolant area / volume / after clearCache / mass); "
                 "structural edits of an assembly's block list (insert, remove, height change; with and without re-meshing); "
+                "generic composites nested 1-4 levels deep over generated blocks (some cut by symmetry) compared node by node "
+                "with the arbitrary-depth Tree model, before and after edits at random nodes; adjustMassFrac (nuclide / element "
+                "to adjust, optional nuclide / element held constant, values incl. 0 and unchanged) at component, block and "
+                "assembly level, its setMassFracs argument captured and compared with the model's; "
                 "densityTools conversions on random compositions. distinct = object (read-only comparisons) / edit combination; "
                 "each is a real API call compared with the model after the edit and judged by the oracle. For edits, "
                 "distinct counts the (level, edit kind, value class [zero / trace / value / absent nuclide / empty / identity / "
@@ -1861,6 +2293,10 @@ def search(ctx, disagreements, broken):
         guarded(sub, "assemblies", lambda: run_assemblies(sub, r))
         if not unknown() or any(s.startswith("generated") for s in streams):
             guarded(sub, "generated", lambda: run_generated(sub))
+        if any(s.startswith("trees") for s in streams) or not unknown():
+            guarded(sub, "trees", lambda: run_trees(sub))
+        if any(s.startswith("adjustMassFrac") for s in streams) or not unknown():
+            guarded(sub, "adjustMassFrac", lambda: run_adjust(sub))
         if any(s.startswith("reference core") for s in streams) and not unknown():
             guarded(sub, "reference core", lambda: run_core(sub, r))
         guarded(sub, "densityTools", lambda: run_conversions(sub))
